@@ -1,1 +1,112 @@
-import SigModel.Spec.Hub
+/-
+C07 — Closed sessions leave nothing behind and session limits are exact.
+
+Corollaries of `reachable_inv`: in every reachable state of the hub model every
+table, set, map and listener list only mentions sessions that exist.
+-/
+import SigModel.Lemmas.HubOps
+
+namespace SigModel.Hub
+
+/-- Every place of the hub state that can mention a session id. -/
+def mentioned (h : Hub) (s : Nat) : Prop :=
+  (∃ b r rm, h.rooms b r = some rm ∧ (s ∈ rm.members ∨ s ∈ rm.inCall)) ∨
+  (∃ b r, s ∈ h.roomL b r) ∨ (∃ b u, s ∈ h.userL b u) ∨ h.sessL s = true ∨
+  (∃ rs, h.rs2sid rs = some s) ∨ (∃ rs, h.sid2rs s = some rs) ∨
+  (∃ p k, h.vtable p k = some s) ∨ (∃ k v, h.vtable s k = some v) ∨
+  s ∈ h.expired ∨ s ∈ h.anon ∨ s ∈ h.dialout ∨ (∃ b, s ∈ h.count b) ∨
+  (∃ c, h.connSess c = some s) ∨ (∃ p x, h.sess p = some x ∧ (s ∈ x.children ∨ (x.kind = .virtual ∧ x.parent = s)))
+
+/-- **No residue.** In every reachable state, a session id that is mentioned anywhere — room
+member or in-call lists, room/user/session bus listeners, the room-session maps, the virtual
+session table (as value or as owner), the expiry / anonymous / dial-out waiting lists, a
+per-backend count, a connection, a parent's child list or a virtual session's parent field —
+belongs to a session that exists.  Contrapositive: once a session has ended (bye, expiry,
+kick, …: its entry in `sess` is gone) the server holds no reference to it. -/
+theorem C07_no_residue (ops : List Op) (s : Nat) (hm : mentioned (run {} ops).1 s) :
+    ((run {} ops).1.sess s).isSome = true := by
+  have hi := reachable_inv ops
+  generalize (run {} ops).1 = h at hi hm
+  obtain ⟨f1, f2, f3, f4, f5, f6, f7, f8, f9, f10, f11, f12, f13, f14, f15, f16, f17, f18, f19, f20, f21, f22, f23, f24, f25⟩ := hi
+  unfold mentioned at hm
+  rcases hm with ⟨b, r, rm, hrm, h1 | h1⟩ | ⟨b, r, h1⟩ | ⟨b, u, h1⟩ | h1 | ⟨rs, h1⟩ | ⟨rs, h1⟩ | ⟨p, k, h1⟩ |
+      ⟨k, v, h1⟩ | h1 | h1 | h1 | ⟨b, h1⟩ | ⟨c, h1⟩ | ⟨p, x, hp, h1 | ⟨hk, h1⟩⟩
+  · obtain ⟨x, hx, _⟩ := f2 b r rm s hrm h1; simp [hx]
+  · obtain ⟨x, hx, _⟩ := f2 b r rm s hrm (f24 b r rm s hrm h1); simp [hx]
+  · obtain ⟨x, hx, _⟩ := (f6 b r s).mp h1; simp [hx]
+  · obtain ⟨x, hx, _⟩ := (f8 b u s).mp h1; simp [hx]
+  · exact (f10 s).mp h1
+  · obtain ⟨x, hx, _⟩ := f12 s rs (f11 rs s h1); simp [hx]
+  · obtain ⟨x, hx, _⟩ := f12 s rs h1; simp [hx]
+  · obtain ⟨x, hx, _⟩ := f15 p k s h1; simp [hx]
+  · obtain ⟨vx, hv, hkv, hpar, _⟩ := f15 s k v h1
+    obtain ⟨_, _, _, h4⟩ := f13 v vx hv hkv
+    rcases h4 with h4 | ⟨p, hp, _⟩
+    · cases h4
+    · rw [hpar] at hp; simp [hp]
+  · exact f19 s h1
+  · exact f20 s h1
+  · exact f21 s h1
+  · obtain ⟨x, hx, _⟩ := f22 b s h1; simp [hx]
+  · obtain ⟨x, hx, _⟩ := (f16 c s).mp h1; simp [hx]
+  · obtain ⟨vx, hv, _⟩ := f14 p x s hp h1; simp [hv]
+  · obtain ⟨_, _, _, h4⟩ := f13 p x hp hk
+    rcases h4 with h4 | ⟨q, hq, _⟩
+    · cases h4
+    · rw [h1] at hq; simp [hq]
+
+/-- A session that has ended is in no room — and a room it emptied is gone (`C04_no_empty_rooms`). -/
+theorem C07_ended_in_no_room (ops : List Op) (s : Nat) (hs : (run {} ops).1.sess s = none)
+    (b : Nat) (r : String) (rm : Room) (hrm : (run {} ops).1.rooms b r = some rm) : s ∉ rm.members := by
+  intro hm
+  have := C07_no_residue ops s (Or.inl ⟨b, r, rm, hrm, Or.inl hm⟩)
+  rw [hs] at this; cases this
+
+/-- Connections and sessions point at each other, and a connection waiting for hello has no session. -/
+theorem C07_connections (ops : List Op) (c s : Nat) :
+    ((run {} ops).1.connSess c = some s ↔ ∃ x, (run {} ops).1.sess s = some x ∧ x.conn = some c) ∧
+    (c ∈ (run {} ops).1.expectHello → (run {} ops).1.connSess c = none) :=
+  ⟨(reachable_inv ops).conn_iff c s, (reachable_inv ops).eh c⟩
+
+/-- The facts of the source the residue theorems depend on (regenerated on every run): the virtual
+session table is cleaned when a virtual session ends by any path, and only members of a room are
+marked as being in its call. -/
+theorem C07_facts : Generated.Hub.vtableClearedOnClose = true ∧ Generated.Hub.inCallMembersOnly = true := by decide
+
+private def demo : List Op :=
+  [.connect 1, .connect 2, .hello 1 0 .internal "" true false, .hello 2 0 .client "bob" false false,
+   .join 2 "roomA" "nc2" (.ok none ""), .addVirtual 1 "roomA" "v1" "carol" none true, .bye 1]
+
+/-- Non-vacuity: an internal client with a virtual session in a room says bye; both sessions are gone
+and the room keeps only the remaining client. -/
+example : ((run {} demo).1.sess 1).isNone ∧ ((run {} demo).1.sess 3).isNone ∧
+    ((run {} demo).1.rooms 0 "roomA").map (·.members) = some [2] := by
+  decide +kernel
+
+end SigModel.Hub
+
+namespace SigModel.Hub
+
+/-- **Limits are exact.** In every reachable state the number of sessions registered against a
+backend's limit does not exceed the limit, and the entries counted are live client (non-internal,
+non-virtual) sessions of that backend — so capacity freed by ended sessions is available again
+(`C07_no_residue`: an ended session is in no count). -/
+theorem C07_limit_respected (ops : List Op) (b : Nat) (hl : (run {} ops).1.limit b ≠ 0) :
+    ((run {} ops).1.count b).length ≤ (run {} ops).1.limit b ∧
+    ∀ s, s ∈ (run {} ops).1.count b → ∃ x, (run {} ops).1.sess s = some x ∧ x.backend = b ∧ x.kind = .client :=
+  ⟨(reachable_inv ops).count_le b hl, fun s hs => (reachable_inv ops).count b s hs⟩
+
+/-- A hello is refused for the limit exactly when the limit is reached: with a free slot a valid hello
+on an open, unauthenticated connection yields a session. -/
+theorem C07_free_slot_usable (h : Hub) (c b : Nat) (user : String)
+    (hopen : h.connOpen c = true) (hfree : h.connSess c = none)
+    (hslot : h.limit b = 0 ∨ (h.count b).length < h.limit b) :
+    (step h (.hello c b .client user false false)).2.map (·.msg) = [Msg.hello h.nextSid user] := by
+  have hl : limitReached h b .client = false := by
+    unfold limitReached
+    rcases hslot with h0 | h0
+    · simp [h0]
+    · simp; intro _; omega
+  simp [step, stepAcc, processHello, hopen, hfree, hl, flushCloses]
+
+end SigModel.Hub
